@@ -383,9 +383,14 @@ static void print_task_newline(int current_tid)
 
 static void print_char(char **args, size_t *len, const char c)
 {
+	/* keep room for the terminating NUL */
+	if (*len <= 1)
+		return;
+
 	**args = c;
 	*args += 1;
 	*len -= 1;
+	**args = '\0';
 }
 
 static void print_args(char **args, size_t *len, const char *fmt, ...)
@@ -393,9 +398,23 @@ static void print_args(char **args, size_t *len, const char *fmt, ...)
 	int x;
 	va_list ap;
 
+	if (*len <= 1)
+		return;
+
 	va_start(ap, fmt);
 	x = vsnprintf(*args, *len, fmt, ap);
 	va_end(ap);
+
+	if (x < 0 || (size_t)x >= *len) {
+		/*
+		 * It does not fit: drop this piece as a whole (no half escape
+		 * sequence) and take nothing more, the buffer is full.
+		 */
+		**args = '\0';
+		*len = 1;
+		return;
+	}
+
 	*args += x;
 	*len -= x;
 }
